@@ -113,7 +113,7 @@ pub fn build(coin: &'static Coin, h: &History) -> Option<ChainBuilder> {
                     let (v, s) = out_script(*o);
                     TxOut { value: v + k as u64, script: s }
                 }).collect();
-                let tx = Tx { version: 2, segwit: false, inputs, outputs, locktime: k as u32 };
+                let tx = Tx { version: 2, segwit: false, inputs, outputs, locktime: k as u32, wide: 0 };
                 txids[k] = Some(tx.txid());
                 built[k] = Some(tx);
             }
@@ -269,10 +269,10 @@ fn index_width_cases(coin: &'static Coin, only: Option<usize>) -> Vec<(String, C
         }
         let mut cb = ChainBuilder::with_genesis(coin);
         let outs: Vec<TxOut> = (0..n_out).map(|i| TxOut { value: 1000 + i as u64, script: script::p2pkh(&script::h20((i % 251) as u8)) }).collect();
-        let big = Tx { version: 1, segwit: false, inputs: vec![TxIn::spend([0xee; 32], 0)], outputs: outs, locktime: 0 };
+        let big = Tx { version: 1, segwit: false, inputs: vec![TxIn::spend([0xee; 32], 0)], outputs: outs, locktime: 0, wide: 0 };
         let txid = big.txid();
         cb.push(vec![big]);
-        let spender = Tx { version: 1, segwit: false, inputs: spend.iter().map(|i| TxIn::spend(txid, *i)).collect(), outputs: vec![TxOut { value: 1, script: script::p2pkh(&script::h20(7)) }], locktime: 0 };
+        let spender = Tx { version: 1, segwit: false, inputs: spend.iter().map(|i| TxIn::spend(txid, *i)).collect(), outputs: vec![TxOut { value: 1, script: script::p2pkh(&script::h20(7)) }], locktime: 0, wide: 0 };
         cb.push(vec![spender]);
         v.push((format!("{}-outputs spent at {:?}", n_out, spend), cb));
     }
@@ -292,9 +292,9 @@ fn index_width_cases(coin: &'static Coin, only: Option<usize>) -> Vec<(String, C
             TxOut { value: u32::MAX as u64, script: b.clone() },
             TxOut { value: 2, script: b.clone() },
         ];
-        cb.push(vec![Tx { version: 1, segwit: false, inputs: vec![TxIn::spend([0xee; 32], 0)], outputs: outs, locktime: 0 }]);
+        cb.push(vec![Tx { version: 1, segwit: false, inputs: vec![TxIn::spend([0xee; 32], 0)], outputs: outs, locktime: 0, wide: 0 }]);
         let many: Vec<TxOut> = (0..3000usize).map(|i| TxOut { value: 3_000_000_000 + i as u64, script: script::p2pkh(&script::h20(79)) }).collect();
-        cb.push(vec![Tx { version: 1, segwit: false, inputs: vec![TxIn::spend([0xee; 32], 1)], outputs: many, locktime: 0 }]);
+        cb.push(vec![Tx { version: 1, segwit: false, inputs: vec![TxIn::spend([0xee; 32], 1)], outputs: many, locktime: 0, wide: 0 }]);
         v.push(("large values (sums beyond 2^32 / 2^53 / near 2^64) and 3000 outputs to one address".to_string(), cb));
     }
     // every address-carrying script kind, each paid twice (one of the two spent again) plus the address-less kinds:
@@ -329,10 +329,10 @@ fn index_width_cases(coin: &'static Coin, only: Option<usize>) -> Vec<(String, C
             outs.push(TxOut { value: 10_000 + i as u64, script: k.clone() });
         }
         let n = outs.len() as u32;
-        let payer = Tx { version: 1, segwit: false, inputs: vec![TxIn::spend([0xee; 32], 0)], outputs: outs, locktime: 0 };
+        let payer = Tx { version: 1, segwit: false, inputs: vec![TxIn::spend([0xee; 32], 0)], outputs: outs, locktime: 0, wide: 0 };
         let txid = payer.txid();
         cb.push(vec![payer]);
-        let spender = Tx { version: 1, segwit: false, inputs: (0..n).step_by(2).map(|i| TxIn::spend(txid, i)).collect(), outputs: vec![TxOut { value: 1, script: script::p2pk(&g33) }], locktime: 0 };
+        let spender = Tx { version: 1, segwit: false, inputs: (0..n).step_by(2).map(|i| TxIn::spend(txid, i)).collect(), outputs: vec![TxOut { value: 1, script: script::p2pk(&g33) }], locktime: 0, wide: 0 };
         cb.push(vec![spender]);
         v.push((format!("{} script kinds (valid / invalid-point P2PK, P2PKH, P2SH, witness v0/v1/v2/v16, multisig, OP_RETURN, empty, non-standard), each paid twice and spent once", kinds.len()), cb));
     }
@@ -342,7 +342,7 @@ fn index_width_cases(coin: &'static Coin, only: Option<usize>) -> Vec<(String, C
         skip(&mut v);
     } else {
         let mut cb = ChainBuilder::with_genesis(coin);
-        let mk = |tag: u8, lt: u32| Tx { version: 1, segwit: false, inputs: vec![TxIn::spend([0xe0 + tag; 32], 0)], outputs: vec![TxOut { value: 1000 + tag as u64, script: script::p2pkh(&script::h20(50 + tag)) }, TxOut { value: 2000 + tag as u64, script: script::p2pkh(&script::h20(60 + tag)) }], locktime: lt };
+        let mk = |tag: u8, lt: u32| Tx { version: 1, segwit: false, inputs: vec![TxIn::spend([0xe0 + tag; 32], 0)], outputs: vec![TxOut { value: 1000 + tag as u64, script: script::p2pkh(&script::h20(50 + tag)) }, TxOut { value: 2000 + tag as u64, script: script::p2pkh(&script::h20(60 + tag)) }], locktime: lt, wide: 0 };
         let twins = |tag: u8, range: std::ops::Range<usize>| -> (Tx, Tx) {
             let mut seen: std::collections::HashMap<Vec<u8>, u32> = std::collections::HashMap::new();
             for lt in 0..3_000_000u32 {
@@ -366,11 +366,55 @@ fn index_width_cases(coin: &'static Coin, only: Option<usize>) -> Vec<(String, C
         let (a1, a2) = twins(1, 0..4);
         let (b1, b2) = twins(2, 28..32);
         let (z1, z2) = (zero(3, 0), zero(4, 31));
-        let spend = |t: &Tx, k: u8| Tx { version: 1, segwit: false, inputs: vec![TxIn::spend(t.txid(), 0)], outputs: vec![TxOut { value: 5, script: script::p2pkh(&script::h20(70 + k)) }], locktime: 0 };
+        let spend = |t: &Tx, k: u8| Tx { version: 1, segwit: false, inputs: vec![TxIn::spend(t.txid(), 0)], outputs: vec![TxOut { value: 5, script: script::p2pkh(&script::h20(70 + k)) }], locktime: 0, wide: 0 };
         let spenders = vec![spend(&a1, 1), spend(&b2, 2), spend(&z1, 3), spend(&z2, 4)];
         cb.push(vec![a1, a2, b1, b2, z1, z2]);
         cb.push(spenders);
         v.push(("txid twins (equal first / last 4 bytes) and txids with a zero first / last byte, one of each spent".to_string(), cb));
+    }
+    // addresses whose totals are equal although reached differently (50 = 20 + 30 = 10 + 15 + 25), equal to a txid-less
+    // constant (1), and equal after a spend: rows are per address, never per amount
+    if !want(&v) {
+        skip(&mut v);
+    } else {
+        let mut cb = ChainBuilder::with_genesis(coin);
+        let a = |k: u8| script::p2pkh(&script::h20(120 + k));
+        let outs = vec![
+            TxOut { value: 50, script: a(1) },
+            TxOut { value: 20, script: a(2) },
+            TxOut { value: 30, script: a(2) },
+            TxOut { value: 10, script: a(3) },
+            TxOut { value: 15, script: a(3) },
+            TxOut { value: 25, script: a(3) },
+            TxOut { value: 50, script: a(4) },
+            TxOut { value: 1, script: a(5) },
+            TxOut { value: 1, script: a(6) },
+            TxOut { value: 70, script: a(7) },
+            TxOut { value: 50, script: a(7) },
+            TxOut { value: 0, script: a(8) },
+            TxOut { value: 0, script: a(9) },
+        ];
+        let payer = Tx { version: 1, segwit: false, inputs: vec![TxIn::spend([0xee; 32], 0)], outputs: outs, locktime: 0, wide: 0 };
+        let txid = payer.txid();
+        cb.push(vec![payer]);
+        // a(7) drops from 120 to 50 as well
+        cb.push(vec![Tx { version: 1, segwit: false, inputs: vec![TxIn::spend(txid, 9)], outputs: vec![TxOut { value: 50, script: a(10) }], locktime: 0, wide: 0 }]);
+        v.push(("nine addresses with pairwise equal totals (50 five times, 1 twice, 0 twice)".to_string(), cb));
+    }
+    // transactions whose counts / lengths are stored in wider CompactSize forms than necessary: their ids are the hashes of
+    // the bytes as stored, and that is what later inputs refer to
+    if !want(&v) {
+        skip(&mut v);
+    } else {
+        let mut cb = ChainBuilder::with_genesis(coin);
+        let mut funders = Vec::new();
+        for (k, wide) in [1u8, 2, 3, 1 | (1 << 2), 2 | (2 << 2), 3 | (4 << 2), 1 | (8 << 2), 0].into_iter().enumerate() {
+            funders.push(Tx { version: 1, segwit: k % 2 == 1, inputs: vec![TxIn::spend([0xc0 + k as u8; 32], 0)], outputs: vec![TxOut { value: 100 + k as u64, script: script::p2pkh(&script::h20(140 + k as u8)) }, TxOut { value: 200 + k as u64, script: script::p2pkh(&script::h20(150 + k as u8)) }], locktime: 0, wide });
+        }
+        let spender = Tx { version: 1, segwit: false, inputs: funders.iter().map(|f| TxIn::spend(f.txid(), 0)).collect(), outputs: vec![TxOut { value: 7, script: script::p2pkh(&script::h20(160)) }], locktime: 0, wide: 2 };
+        cb.push(funders);
+        cb.push(vec![spender]);
+        v.push(("eight funding transactions in wide CompactSize forms (3 widths, single fields), their first outputs spent by id".to_string(), cb));
     }
     // a big UTXO set: 250 000 unspent outputs over 40 addresses (5 transactions of 50 000 outputs), 10 000 of them spent again
     if !want(&v) {
@@ -381,12 +425,12 @@ fn index_width_cases(coin: &'static Coin, only: Option<usize>) -> Vec<(String, C
         let mut txs = Vec::new();
         for t in 0..5usize {
             let outs: Vec<TxOut> = (0..50_000usize).map(|i| TxOut { value: 1 + (i % 1000) as u64, script: script::p2pkh(&script::h20(((i + t) % 40) as u8 + 100)) }).collect();
-            let tx = Tx { version: 1, segwit: false, inputs: vec![TxIn::spend([0xee; 32], t as u32)], outputs: outs, locktime: t as u32 };
+            let tx = Tx { version: 1, segwit: false, inputs: vec![TxIn::spend([0xee; 32], t as u32)], outputs: outs, locktime: t as u32, wide: 0 };
             txids.push(tx.txid());
             txs.push(tx);
         }
         cb.push(txs);
-        let spender = Tx { version: 1, segwit: false, inputs: (0..10_000u32).map(|i| TxIn::spend(txids[(i % 5) as usize], i * 4)).collect(), outputs: vec![TxOut { value: 9, script: script::p2pkh(&script::h20(100)) }], locktime: 0 };
+        let spender = Tx { version: 1, segwit: false, inputs: (0..10_000u32).map(|i| TxIn::spend(txids[(i % 5) as usize], i * 4)).collect(), outputs: vec![TxOut { value: 9, script: script::p2pkh(&script::h20(100)) }], locktime: 0, wide: 0 };
         cb.push(vec![spender]);
         v.push(("250000 unspent outputs over 40 addresses, 10000 spent".to_string(), cb));
     }
